@@ -162,10 +162,7 @@ type gReader struct {
 	lastHanded map[tp]int64
 	commitReq  map[tp]int64 // highest offset passed to CommitMessages (or handed by ReadMessage)
 	inCall     bool         // a ReadMessage call is in progress
-	callCommit map[tp]map[int64]bool // commits observed during the in-progress ReadMessage call
-	failedCommit map[tp]int64 // commit offsets covered by ReadMessage calls that returned an error
-	lostBudget int            // ReadMessage calls that failed: each may have dropped (and possibly committed) one message
-	deemed     map[tp]map[int64]bool
+	failedCalls int           // ReadMessage calls that failed: each may have dropped (and possibly committed) one message
 	resumes    map[tp][]int64 // resume points served by the coordinator to this reader (-1 resolved later)
 	resumeLEO  map[tp][]int64
 	closeInv, closeRet int
@@ -183,6 +180,8 @@ type groupState struct {
 	quiesceAt  time.Duration
 	lowest     map[tp]int64
 	deferred   []Commit
+	censusOK   bool
+	closeBound time.Duration
 }
 
 func (st *groupState) readerOfMember(mid string) *gReader {
@@ -192,38 +191,6 @@ func (st *groupState) readerOfMember(mid string) *gReader {
 		}
 	}
 	return nil
-}
-
-// deem marks a message as "counts as handed": ReadMessage commits inside the
-// call before handing the message over, so a call that fails after fetching
-// drops (and may have committed) exactly one message. This is the documented
-// behaviour the property's ReadMessage clause allows for; each failed call
-// explains at most one such message.
-func (st *groupState) deem(r *gReader, k tp, off int64) bool {
-	if r.deemed[k][off] {
-		return true
-	}
-	if r.lostBudget <= 0 {
-		return false
-	}
-	r.lostBudget--
-	if r.deemed[k] == nil {
-		r.deemed[k] = map[int64]bool{}
-	}
-	r.deemed[k][off] = true
-	if st.everHanded[k] == nil {
-		st.everHanded[k] = map[int64]bool{}
-	}
-	st.everHanded[k][off] = true
-	if last, ok := r.lastHanded[k]; !ok || off > last {
-		r.lastHanded[k] = off
-	}
-	if off > r.commitReq[k] || r.commitReq[k] == 0 {
-		r.commitReq[k] = off
-	}
-	st.s.Count("readmessage-dropped-message")
-	st.s.Tracef("deem reader%d %s[%d]@%d", r.k, k.t, k.p, off)
-	return true
 }
 
 func (st *groupState) recordHanded(r *gReader, m kafka.Message, viaRead bool) {
@@ -267,43 +234,23 @@ func (st *groupState) recordHanded(r *gReader, m kafka.Message, viaRead bool) {
 		why = fmt.Sprintf("previous hand-over %v, resume points served %v", r.lastHanded[k], rs)
 	}
 	if !ok && r.readMsgAPI {
-		// messages counted as handed on behalf of failed calls may in fact be
-		// delivered (again) later: for ReadMessage users a re-delivery at or
-		// below the last position is not a gap
-		if last, has := r.lastHanded[k]; has && m.Offset <= last {
+		// ReadMessage commits inside the call and hands the message over
+		// afterwards (documented): every call that failed may have dropped one
+		// message, so the next hand-over may lie up to `failedCalls` records
+		// ahead of a plain continuation / resume point; a re-delivery at or
+		// below the last position is never a gap
+		slack := int64(r.failedCalls)
+		if last, has := r.lastHanded[k]; has && m.Offset <= last+1+slack {
 			ok = true
 		}
-	}
-	if !ok && r.readMsgAPI {
-		// a failed ReadMessage call may have dropped the record(s) in between
-		if last, has := r.lastHanded[k]; has && m.Offset > last+1 {
-			all := true
-			for o := last + 1; o < m.Offset; o++ {
-				if !st.deem(r, k, o) {
-					all = false
-					break
-				}
+		rs := r.resumes[k]
+		for i := len(rs) - 1; i >= 0 && i >= len(rs)-3 && !ok; i-- {
+			sv := rs[i]
+			if sv < 0 && st.startFirst {
+				sv = p.LogStart
 			}
-			ok = all
-		}
-		if !ok {
-			// or the first record(s) after a resume point
-			rs := r.resumes[k]
-			for i := len(rs) - 1; i >= 0 && i >= len(rs)-3 && !ok; i-- {
-				sv := rs[i]
-				if sv < 0 && st.startFirst {
-					sv = p.LogStart
-				}
-				if sv >= 0 && m.Offset > sv && m.Offset-sv <= int64(r.lostBudget) {
-					all := true
-					for o := sv; o < m.Offset; o++ {
-						if !st.deem(r, k, o) {
-							all = false
-							break
-						}
-					}
-					ok = all
-				}
+			if sv >= 0 && m.Offset >= sv && m.Offset <= sv+slack {
+				ok = true
 			}
 		}
 	}
@@ -345,17 +292,32 @@ func (st *groupState) checkCommits() {
 			covered = true
 		}
 		if !covered && r.readMsgAPI {
-			if r.deemed[k][c.Offset-1] {
-				covered = true
-			} else if r.inCall {
-				// provisionally explained by the in-progress call; settled when it returns
-				if r.callCommit[k] == nil {
-					r.callCommit[k] = map[int64]bool{}
+			// the commit may cover the message the in-progress call holds, or
+			// messages dropped by earlier failed calls
+			hi := int64(-1)
+			if l, ok := r.lastHanded[k]; ok {
+				hi = l
+			}
+			for _, sv := range r.resumes[k] {
+				if sv < 0 {
+					if p := st.cl.Part(k.t, k.p); p != nil {
+						if st.startFirst {
+							sv = p.LogStart
+						} else {
+							sv = p.LEO
+						}
+					}
 				}
-				r.callCommit[k][c.Offset] = true
+				if sv-1 > hi {
+					hi = sv - 1
+				}
+			}
+			allow := int64(r.failedCalls)
+			if r.inCall {
+				allow++
+			}
+			if c.Offset-1 <= hi+allow {
 				covered = true
-			} else if st.deem(r, k, c.Offset-1) {
-				covered = true // late commit of an earlier ReadMessage call that failed
 			}
 		}
 		if !covered {
@@ -366,7 +328,7 @@ func (st *groupState) checkCommits() {
 		// ReadMessage users the message is handed (or counted as dropped by a
 		// failed call) only when the call returns, so their commits are
 		// re-examined at the end of the run.
-		if r.readMsgAPI {
+		if r.readMsgAPI || st.lostAllowance() > 0 {
 			st.deferred = append(st.deferred, c)
 		} else {
 			st.checkR4(c, r)
@@ -380,6 +342,18 @@ func (st *groupState) checkR4(c Commit, r *gReader) {
 	}
 	k := tp{c.Topic, c.Partition}
 	p := st.cl.Part(k.t, k.p)
+	missing := 0
+	for _, rec := range p.Records() {
+		if rec.Offset >= c.Offset {
+			break
+		}
+		if rec.Offset >= st.lowest[k] && !st.everHanded[k][rec.Offset] {
+			missing++
+		}
+	}
+	if missing <= st.lostAllowance() {
+		return
+	}
 	for _, rec := range p.Records() {
 		if rec.Offset >= c.Offset {
 			break
@@ -457,10 +431,12 @@ func groupScenario(s *Sim, params map[string]string) {
 		}
 		cl.F = FaultCfg{ErrorCode: 30, CutBeforeApply: 15, CutAfterApply: 15, CutInResponse: 15, Slow: 15, SlowMin: 50 * time.Millisecond, SlowMax: 2 * time.Second, APIs: apis}
 	}
+	timing := fmode == 3
 	st.quiesceAt = time.Duration(t.Range("cfg", 5, 25)) * time.Second
 	cl.F.Until = st.quiesceAt
 
 	hb := Pick(t, "cfg", 500*time.Millisecond, time.Second, 3*time.Second)
+	defer func() {}()
 	session := Pick(t, "cfg", 4*time.Second, 10*time.Second, 30*time.Second)
 	rebalance := Pick(t, "cfg", 3*time.Second, 10*time.Second, 30*time.Second)
 	commitInterval := Pick(t, "cfg", time.Duration(0), 0, 200*time.Millisecond, time.Second)
@@ -469,9 +445,14 @@ func groupScenario(s *Sim, params map[string]string) {
 		{kafka.RangeGroupBalancer{}, kafka.RoundRobinGroupBalancer{}},
 	}[t.Intn("cfg", 4)]
 
+	// Close cannot interrupt a join/sync waiting at the coordinator (conn
+	// deadlines Timeout+RebalanceTimeout / Timeout+SessionTimeout with the
+	// default 5s Timeout), then leaves the group, and fetchers end within
+	// MaxWait / ReadBatchTimeout / dial time-out
+	st.closeBound = (5*time.Second + rebalance) + (5*time.Second + session) + 10*time.Second + 10*time.Second + 5*time.Second
 	mkReader := func(k int) *gReader {
 		gr := &gReader{k: k, clientID: fmt.Sprintf("reader%d", k), handed: map[tp][]int64{}, lastHanded: map[tp]int64{}, commitReq: map[tp]int64{},
-			callCommit: map[tp]map[int64]bool{}, failedCommit: map[tp]int64{}, deemed: map[tp]map[int64]bool{}, resumes: map[tp][]int64{}, resumeLEO: map[tp][]int64{}}
+			 resumes: map[tp][]int64{}, resumeLEO: map[tp][]int64{}}
 		gr.readMsgAPI = t.Intn("cfg", 3) == 0
 		gr.syncCommit = commitInterval == 0
 		cfg := kafka.ReaderConfig{
@@ -549,39 +530,13 @@ func groupScenario(s *Sim, params map[string]string) {
 				ctx, cancel := context.WithTimeout(context.Background(), time.Duration(t.Range("work", 100, 3000))*time.Millisecond)
 				if gr.readMsgAPI {
 					gr.inCall = true
-					for k := range gr.callCommit {
-						delete(gr.callCommit, k)
-					}
 					m, err := gr.r.ReadMessage(ctx)
 					gr.inCall = false
 					if err == nil {
-						for k, set := range gr.callCommit {
-							for co := range set {
-								if k == (tp{m.Topic, int32(m.Partition)}) && co == m.Offset+1 {
-									continue
-								}
-								// a commit seen during this call that is not for the returned
-								// message must be the late commit of an earlier failed call
-								if !st.deem(gr, k, co-1) {
-									s.Fail("C03", "R1-commit-ahead", "reader %d: a commit %s[%d]=%d was accepted during a ReadMessage call that returned %s[%d]@%d, and no failed ReadMessage call explains it", gr.k, k.t, k.p, co, m.Topic, m.Partition, m.Offset)
-								}
-							}
-						}
 						st.recordHanded(gr, m, true)
 						s.Count("ops")
 					} else {
-						// ReadMessage commits inside the call, before handing the
-						// message over (documented): a call that failed after its
-						// commit was sent counts as having been handed the one message
-						// that commit covers
-						gr.lostBudget++
-						for k, set := range gr.callCommit {
-							for o := range set {
-								if !st.deem(gr, k, o-1) {
-									s.Fail("C03", "R1-commit-ahead", "reader %d: commit %s[%d]=%d accepted during a failed ReadMessage call is not explained by any failed call", gr.k, k.t, k.p, o)
-								}
-							}
-						}
+						gr.failedCalls++
 						if errors.Is(err, io.EOF) && gr.closed {
 							cancel()
 							return
@@ -731,9 +686,27 @@ func groupScenario(s *Sim, params map[string]string) {
 	// end of run: R5 bounded liveness, then close everything
 	var finishing, finished bool
 	bound := 2*(rebalance+session) + 60*time.Second
+	censusDone := false
 	s.DoneWhen(func() bool {
+		if finished && !censusDone {
+			censusDone = true
+			s.Go("census", func() {
+				// C09.R6: after Close plus the network time-outs nothing is left
+				s.Sleep(25 * time.Second)
+				if leak := libraryGoroutines(); leak != "" {
+					s.Fail("C09", "R6-goroutine-leak", "goroutines with kafka-go frames remain %v after every Reader was closed: %s", 25*time.Second, leak)
+				}
+				for _, cn := range n.Conns() {
+					if strings.HasPrefix(cn.Owner, "reader") && !cn.ClientClosed() {
+						s.Fail("C09", "R6-conn-open", "connection c%d opened by %s to %s at %v is still open %v after every Reader was closed", cn.ID, cn.Owner, cn.RemoteAddr(), cn.OpenedAt, 25*time.Second)
+					}
+				}
+				st.censusOK = true
+			})
+			return false
+		}
 		if finished {
-			return true
+			return st.censusOK
 		}
 		if finishing || s.Now() < st.quiesceAt {
 			return false
@@ -780,13 +753,31 @@ func groupScenario(s *Sim, params map[string]string) {
 					gr.closeRet, gr.closeRetAt = s.Step, s.Now()
 				}
 			}
+			// closes started by membership events must have returned as well
+			limit := s.Now() + st.closeBound + 10*time.Second
+			for s.Now() < limit {
+				all := true
+				for _, gr := range st.readers {
+					if gr.closeInv != 0 && gr.closeRet == 0 {
+						all = false
+					}
+				}
+				if all {
+					break
+				}
+				s.Sleep(500 * time.Millisecond)
+			}
 			finished = true
 		})
 		return false
 	})
 	s.AtEnd(func() {
+		st.lifecycleChecks(n, timing)
 		st.checkCommits()
 		for _, c := range st.deferred {
+			if s.Ended != "done" {
+				break // a ReadMessage call may still be in progress: no verdict
+			}
 			if r := st.readerOfMember(c.Member); r != nil {
 				// a ReadMessage call still in progress at the end holds one message
 				st.checkR4(c, r)
@@ -796,7 +787,45 @@ func groupScenario(s *Sim, params map[string]string) {
 	})
 }
 
-func (st *groupState) allDelivered() bool { return st.undelivered() == "" }
+// lostAllowance is the number of records that failed ReadMessage calls may
+// have dropped (each failed call at most one), over all ReadMessage users.
+func (st *groupState) lostAllowance() int {
+	n := 0
+	for _, r := range st.readers {
+		if r.readMsgAPI {
+			n += r.failedCalls
+			if r.inCall {
+				n++
+			}
+		}
+	}
+	return n
+}
+
+func (st *groupState) allDelivered() bool {
+	u := st.undelivered()
+	if u == "" {
+		return true
+	}
+	// records dropped by failed ReadMessage calls are never redelivered once a
+	// later commit covered them
+	miss := 0
+	for _, tn := range st.cl.TopicNames() {
+		for _, p := range st.cl.Topics[tn].Parts {
+			k := tp{tn, p.ID}
+			committed, ok := st.g.Offsets[tn][p.ID]
+			for _, rec := range p.Records() {
+				if rec.Offset >= st.lowest[k] && !st.everHanded[k][rec.Offset] {
+					if !ok || rec.Offset >= committed {
+						return false // not covered by a commit: must still be delivered
+					}
+					miss++
+				}
+			}
+		}
+	}
+	return miss <= st.lostAllowance()
+}
 
 func (st *groupState) undelivered() string {
 	var out []string
@@ -819,3 +848,73 @@ func (st *groupState) undelivered() string {
 }
 
 var _ = rc.Msg{}
+
+// lifecycleChecks are the C09 rules for Reader.Close evaluated at the end of a
+// group run: bounded return, use after close, silence after close, LeaveGroup.
+func (st *groupState) lifecycleChecks(n *Net, timing bool) {
+	s := st.s
+	for _, gr := range st.readers {
+		if gr.closeInv != 0 && gr.closeRet == 0 {
+			s.Fail("C09", "R5-reader-close-hung", "reader %d: Close invoked at %v had not returned when the run ended (%s at %v); goroutines: %s", gr.k, gr.closeInvAt, s.Ended, s.Now(), StuckReport(30))
+			continue
+		}
+		if gr.closeRet == 0 {
+			continue
+		}
+		if d := gr.closeRetAt - gr.closeInvAt; d > st.closeBound {
+			s.Fail("C09", "R5-reader-close-slow", "reader %d: Close took %v of simulated time (bound %v)", gr.k, d, st.closeBound)
+		}
+		// R3: use after close: items buffered before Close (messages, error
+		// reports) may still be handed out, then io.EOF; never a block
+		for _, api := range []string{"FetchMessage", "ReadMessage"} {
+			done := false
+			for i := 0; i < 300 && !done; i++ {
+				ctx, cancel := context.WithTimeout(context.Background(), time.Second)
+				var err error
+				if api == "FetchMessage" {
+					_, err = gr.r.FetchMessage(ctx)
+				} else {
+					_, err = gr.r.ReadMessage(ctx)
+				}
+				expired := ctx.Err() != nil
+				cancel()
+				switch {
+				case errors.Is(err, io.EOF):
+					done = true
+				case expired:
+					s.Fail("C09", "R3-use-after-close", "reader %d: %s after Close blocked instead of returning io.EOF", gr.k, api)
+					done = true
+				}
+			}
+			if !done {
+				s.Fail("C09", "R3-use-after-close", "reader %d: %s after Close never returned io.EOF", gr.k, api)
+			}
+		}
+		// silence after close: nothing from this client arrives later than one
+		// network latency after Close returned
+		for _, r := range st.cl.Journal {
+			if r.API == nil || clientIDOf(r) != gr.clientID {
+				continue
+			}
+			if r.At > gr.closeRetAt+n.MaxLatency+time.Millisecond {
+				s.Fail("C09", "R5-request-after-close", "reader %d: %s request arrived at %v, Close had returned at %v", gr.k, r.API.Name, r.At, gr.closeRetAt)
+				break
+			}
+		}
+	}
+	// LeaveGroup: every member id that was current when its reader closed left
+	// the group (only judged without network faults)
+	if !timing && st.cl.F.ErrorCode == 0 {
+		for _, gr := range st.readers {
+			if gr.closeRet == 0 || gr.crashed {
+				continue
+			}
+			for id, m := range st.g.Members {
+				_ = m
+				if strings.HasPrefix(id, gr.clientID+"-m") {
+					s.Fail("C09", "R5-no-leave-group", "reader %d closed (Close returned at %v) but its member id %s is still a member of the group: no LeaveGroup reached the coordinator", gr.k, gr.closeRetAt, id)
+				}
+			}
+		}
+	}
+}
